@@ -411,9 +411,16 @@ def check_norm(spec):
                 exp = (x - 0.5) / 0.5
             if not torch.allclose(y, exp, rtol=1e-5, atol=1e-5):
                 raise Violation(f"norm:normalised-value-wrong:{kind}", "")
-            z = d(y.clone())
+            yin = y.clone()
+            z = d(yin)
+            if not inplace and not torch.equal(yin, y):
+                raise Violation(f"norm:copy-mode-denorm-modifies-input:{kind}", f"max diff {float((yin - y).abs().max())}")
             if not torch.allclose(z, x, rtol=1e-4, atol=1e-5):
                 raise Violation(f"norm:denorm-is-not-the-inverse:{kind}", f"max diff {float((z - x).abs().max())}")
+            # the other direction, on the very objects a caller holds: norm(denorm(y)) is y again
+            y2 = n(z.clone())
+            if not torch.allclose(y2, y, rtol=1e-4, atol=1e-4):
+                raise Violation(f"norm:norm-of-denorm-is-not-the-input:{kind}", f"max diff {float((y2 - y).abs().max())}")
     return Case(True, [])
 
 
